@@ -712,6 +712,14 @@ func (w *VerifC05Writer) Comment(text string) {
 	w.impl.WriteString("note " + text + "\n")
 }
 
+// Raw writes an arbitrary op with its implementation line
+func (w *VerifC05Writer) Raw(op map[string]interface{}, line string) {
+	b, _ := json.Marshal(op)
+	w.ops.Write(b)
+	w.ops.WriteByte('\n')
+	w.impl.WriteString(line + "\n")
+}
+
 // VerifC05ReadScenarios reads op lines (one JSON scenario with schedule per line)
 func VerifC05ReadScenarios(path string, level string) ([]*VerifC05Scn, error) {
 	f, err := os.Open(path)
